@@ -332,13 +332,55 @@ func Shrink(c *Check, t *testing.T, s *Scn, v *Violation, deadline time.Time) (*
 		// 2. simplify arguments
 		for i := range cur.Ops {
 			for _, f := range []func(o *Op) bool{
-				func(o *Op) bool { if o.A == 0 { return false }; o.A = 0; return true },
-				func(o *Op) bool { if o.B == 0 { return false }; o.B = 0; return true },
-				func(o *Op) bool { if o.C == 0 { return false }; o.C = 0; return true },
-				func(o *Op) bool { if o.A <= 1 && o.A >= -1 { return false }; o.A /= 2; return true },
-				func(o *Op) bool { if o.B <= 1 && o.B >= -1 { return false }; o.B /= 2; return true },
-				func(o *Op) bool { if o.C <= 1 && o.C >= -1 { return false }; o.C /= 2; return true },
-				func(o *Op) bool { if len(o.S) <= 1 { return false }; o.S = o.S[:len(o.S)/2]; return true },
+				func(o *Op) bool {
+					if o.A == 0 {
+						return false
+					}
+					o.A = 0
+					return true
+				},
+				func(o *Op) bool {
+					if o.B == 0 {
+						return false
+					}
+					o.B = 0
+					return true
+				},
+				func(o *Op) bool {
+					if o.C == 0 {
+						return false
+					}
+					o.C = 0
+					return true
+				},
+				func(o *Op) bool {
+					if o.A <= 1 && o.A >= -1 {
+						return false
+					}
+					o.A /= 2
+					return true
+				},
+				func(o *Op) bool {
+					if o.B <= 1 && o.B >= -1 {
+						return false
+					}
+					o.B /= 2
+					return true
+				},
+				func(o *Op) bool {
+					if o.C <= 1 && o.C >= -1 {
+						return false
+					}
+					o.C /= 2
+					return true
+				},
+				func(o *Op) bool {
+					if len(o.S) <= 1 {
+						return false
+					}
+					o.S = o.S[:len(o.S)/2]
+					return true
+				},
 			} {
 				cand := cur.Clone()
 				if f(&cand.Ops[i]) && try(cand) {
@@ -373,6 +415,21 @@ func Shrink(c *Check, t *testing.T, s *Scn, v *Violation, deadline time.Time) (*
 		}
 	}
 	return cur, curV
+}
+
+// EmergencyReport is for violations after which the run cannot be wound down (e.g. a worker that never
+// stops keeps the bubble alive for ever): it writes the replay file, prints the VIOLATION line and ends
+// the process with status 1. No shrinking, no evidence update.
+func EmergencyReport(id string, s *Scn, v *Violation) {
+	root := verifRoot()
+	seed := envInt("VERIF_SEED", 1)
+	_ = os.MkdirAll(filepath.Join(root, "replays"), 0o755)
+	p := filepath.Join(root, "replays", fmt.Sprintf("%s-seed%d-emergency.json", id, seed))
+	b, _ := json.MarshalIndent(ReplayFile{Engine: "netsim", Property: id, Seed: seed, Scenario: s, Violation: v}, "", " ")
+	_ = os.WriteFile(p, b, 0o644)
+	fmt.Printf("violation detail: %s\n", v)
+	fmt.Printf("VIOLATION property=%s replay=%s\n", id, p)
+	os.Exit(1)
 }
 
 // ReplayFile is what is written on a violation.
@@ -634,19 +691,19 @@ func Main(t *testing.T, c *Check) {
 		samples = append(samples, c.Directed[0])
 	}
 	cov := map[string]any{
-		"evaluations":               tot.evals,
-		"distinct_nontrivial":       len(tot.nontrivial),
-		"rule":                      c.Rule,
-		"samples":                   samples,
-		"operations_executed":       tot.ops,
+		"evaluations":                tot.evals,
+		"distinct_nontrivial":        len(tot.nontrivial),
+		"rule":                       c.Rule,
+		"samples":                    samples,
+		"operations_executed":        tot.ops,
 		"distinct_op_kind_sequences": len(tot.kindSeqs),
-		"distinct_abstract_states":  len(tot.states),
-		"simulated_time_s":          tot.simTime.Seconds(),
-		"scenarios_per_hour":        float64(tot.evals) / wall * 3600,
-		"faults_and_probes_fired":   tot.counters,
-		"workers":                   workers,
-		"components":                c.Components,
-		"known_findings_reproduced": sigs,
+		"distinct_abstract_states":   len(tot.states),
+		"simulated_time_s":           tot.simTime.Seconds(),
+		"scenarios_per_hour":         float64(tot.evals) / wall * 3600,
+		"faults_and_probes_fired":    tot.counters,
+		"workers":                    workers,
+		"components":                 c.Components,
+		"known_findings_reproduced":  sigs,
 	}
 	if enumDesc != "" {
 		cov["enumerated_space"] = enumDesc
